@@ -69,6 +69,53 @@ type Result struct {
 	Plain     *Result         `json:"plain,omitempty"` // the same operation with every @defer removed (C13)
 	Fault     string          `json:"fault,omitempty"`
 	FaultKind string          `json:"faultKind,omitempty"`
+	Event     int             `json:"event,omitempty"` // subscriptions: which event this (split) result is
+}
+
+// SplitEvents turns the result of a subscription into one result per delivered event: the event's
+// payload, the invocations made while it was delivered, and - in place of the stream resolver's own
+// invocation - a resolver invocation at the root field's path yielding the event's value. Each is then an
+// ordinary single execution of the root selection set (GraphQL spec 6.2.3.2 ExecuteSubscriptionEvent).
+// A subscription that failed before its first event (resolver error / panic) is returned unsplit.
+func SplitEvents(r Result) []Result {
+	var stream *Inv
+	for i := range r.Log {
+		if r.Log[i].Kind == "stream" {
+			stream = &r.Log[i]
+		}
+	}
+	if stream == nil {
+		return []Result{r}
+	}
+	var out []Result
+	for k, p := range r.Payloads {
+		e := r
+		e.ID = fmt.Sprintf("%s/ev%d", r.ID, k)
+		e.Event = k
+		e.Payloads = []Payload{p}
+		e.Log = nil
+		e.Recovers = 0
+		for _, inv := range r.Log {
+			if inv.Kind == "stream" {
+				if k < len(inv.Events) {
+					v := inv.Events[k]
+					e.Log = append(e.Log, Inv{Path: inv.Path, Hook: "resolver", Obj: inv.Obj, Field: inv.Field, Kind: "value", Val: &v, Start: inv.Start, End: inv.End})
+				}
+				continue
+			}
+			if inv.Event == k || inv.Event == -1 {
+				if inv.Kind == "panic" && inv.Event == k {
+					e.Recovers++
+				}
+				e.Log = append(e.Log, inv)
+			}
+		}
+		out = append(out, e)
+	}
+	if len(out) == 0 {
+		return []Result{r}
+	}
+	return out
 }
 
 func errsOut(l gqlerror.List) []ErrOut {
@@ -125,15 +172,30 @@ func RunCase(es graphql.ExecutableSchema, c Case) Result {
 		}
 		res.Doc = DocToJSON(rc.Doc, rc.Operation)
 		res.Variables = rc.Variables
+		isSub := rc.Operation != nil && rc.Operation.Operation == ast.Subscription
+		if isSub {
+			st.mu.Lock()
+			st.Event = -1
+			st.mu.Unlock()
+		}
 		handler, hctx := ex.DispatchOperation(ctx, rc)
-		for {
+		for k := 0; ; k++ {
+			if isSub {
+				st.mu.Lock()
+				st.Event = k
+				st.mu.Unlock()
+			}
 			resp := handler(hctx)
 			if resp == nil {
 				break
 			}
-			p := Payload{Data: resp.Data, Errors: errsOut(resp.Errors), Label: resp.Label, Path: PathString(resp.Path), HasNext: resp.HasNext}
+			// the generated response function reuses one buffer for every event of a subscription
+			p := Payload{Data: append(json.RawMessage(nil), resp.Data...), Errors: errsOut(resp.Errors), Label: resp.Label, Path: PathString(resp.Path), HasNext: resp.HasNext}
+			if resp.Data == nil {
+				p.Data = nil
+			}
 			res.Payloads = append(res.Payloads, p)
-			if resp.HasNext == nil || !*resp.HasNext {
+			if !isSub && (resp.HasNext == nil || !*resp.HasNext) {
 				break
 			}
 			if c.MaxPayloads > 0 && len(res.Payloads) >= c.MaxPayloads {
@@ -296,6 +358,7 @@ func Main(newES func(bind func(stub any, directives any, complexity any)) graphq
 	n := flag.Int("n", 200, "number of generated cases")
 	profile := flag.String("profile", "c01", "generator profile")
 	maxHung := flag.Int("maxhung", 0, "stop after this many hung cases (0 = never)")
+	split := flag.Bool("split", false, "run mode: print one result per delivered subscription event")
 	flag.Parse()
 	u := &U{Types: types}
 	es := newES(u.Bind)
@@ -307,12 +370,29 @@ func Main(newES func(bind func(stub any, directives any, complexity any)) graphq
 	switch *mode {
 	case "schema":
 		enc.Encode(SchemaToJSON(es.Schema()))
+	case "subschema":
+		// the schema as the per-event results of subscriptions see it: the subscription root in the place of
+		// the query root (an event is executed like a query on the subscription type)
+		sj := SchemaToJSON(es.Schema())
+		if es.Schema().Subscription != nil {
+			sj.Query = es.Schema().Subscription.Name
+		}
+		enc.Encode(sj)
 	case "c02schema":
 		enc.Encode(C02Schema(es.Schema(), u.StubType))
 	case "gen":
 		g := NewGen(es.Schema(), *seed, *profile)
 		for i := 0; i < *n; i++ {
 			c := g.Case(i)
+			if *profile == "sub" {
+				r := RunCase(es, c)
+				pj, _ := json.Marshal(c.Plan)
+				r.Plan = pj
+				for _, e := range SplitEvents(r) {
+					enc.Encode(e)
+				}
+				continue
+			}
 			if *profile == "c06" && i%3 == 0 {
 				// adversarial schedule: the root fields complete in REVERSE document order
 				pre := c
@@ -418,7 +498,13 @@ func Main(newES func(bind func(stub any, directives any, complexity any)) graphq
 				os.Exit(2)
 			}
 			r := RunCase(es, c)
-			enc.Encode(r)
+			if *split {
+				for _, e := range SplitEvents(r) {
+					enc.Encode(e)
+				}
+			} else {
+				enc.Encode(r)
+			}
 			out.Flush()
 			if r.Hung {
 				hung++
